@@ -97,7 +97,15 @@ func (s *Schema) Example() (b []byte, err error) {
 		return nil, errors.NewDocumentError(s.file, errors.ErrEmptySchema)
 	}
 
-	return newExampleBuilder(s.inner.TypesList()).Build(s.inner.RootNode())
+	ex, err := newExampleBuilder(s.inner.TypesList()).Build(s.inner.RootNode())
+	if err != nil {
+		return nil, err
+	}
+
+	// The example of a scalar root is a view of the source of the schema (or of
+	// the user type the root refers to). The caller owns what it gets: return a
+	// copy, so that editing or appending to it cannot change the schema.
+	return append([]byte(nil), ex...), nil
 }
 
 func (s *Schema) AddType(name string, sc jschema.Schema) (err error) {
